@@ -54,7 +54,7 @@ ASSUMPTIONS = [
 ]
 PROBES = ["parallel_crash_case", "crash_in_rmtree", "crash_between_trees_and_binning", "crash_after_create_before_write", "crash_in_hdf5_write", "prior_with_trees"]
 REAL_VS_STUB = dict(
-    real="all of yaw, numpy tofile, pickle, PyYAML, h5py/HDF5, the kernel file system (tmpfs), real process death",
+    real="all of yaw, numpy tofile, pickle, PyYAML, h5py/HDF5, the kernel file system (tmpfs), real process death; the next use runs in a real, pristine process (child of a zygote forked before the case touches the library)",
     stub="fault injection by LD_PRELOAD (crashfs/shim.c); directory listing order (seeded permutation of os.scandir)",
 )
 
